@@ -217,3 +217,20 @@ claim("C03",
            "ids, dangling edge targets and non-symbol strings are outside the theorems (correspondence only).",
       technique="Lean 4 proof over executable model + differential correspondence with the Python implementation",
       design_ref="DESIGN.md §5 C03")
+
+claim("C01",
+      text="For the models of the MRS codecs it is proved (15 theorems), for all inputs, that (a) escaping/unescaping and the "
+           "double-quoted-string scanner are exact inverses and the scanner stops exactly at the closing quote; (b) "
+           "Lnk(str(l)) = l for all kinds; (c) the SimpleMRS recursive-descent decoder run on the encoder's token list followed "
+           "by any further tokens returns top, index, EPs (predicate, label, arguments, constant, lnk, surface), hcons, icons "
+           "unchanged — with lnk/surface removed exactly when lnk=False — and exactly the remaining tokens, hence multi-item "
+           "documents; (d) the decoded variables map every variable to its property list (first-mention rule proved) and to the "
+           "empty map when properties are off; (e) the MRS-JSON dictionary round trip and its stability for character-span "
+           "alignments. MRX and Indexed MRS are decided by correspondence (MRX) and the direct oracle on the real code.",
+      note="The SimpleMRS regex lexer and text layout (indentation) are not modelled; the model's token encoder is compared with "
+           "the real lexer's output on the real text, and the parser with the real decoder, on generated cases only. MRX is "
+           "modelled at ElementTree level but its round trip is not proved. Indexed MRS is oracle-only. SimpleMRS token stability "
+           "(re-encoding) is not proved (oracle: exact text equality). xml.etree and json are parameters, assumed identity and "
+           "side-checked per case. Case folding is ASCII. U+2029 is treated as a line separator (outside the quantifier).",
+      technique="Lean 4 proof over executable model + differential correspondence with the Python implementation",
+      design_ref="DESIGN.md §5 C01")
